@@ -330,9 +330,18 @@ def r40_broadcast(facts):
                 if tup.get("k") == "Tuple" and len(tup["fields"]) == 2:
                     dims_e = tup["fields"][0]
             if dims_e is None:
-                c.unk(inst, F.loc(b, e), "a result of the element-wise combinator is built in a way whose dimensions are not read: %s" % show(t)[:80])
-                continue
-            verdict = is_broadcast_dims(dims_e)
+                # a clone of one operand has that operand's own dimensions
+                t2 = t
+                while isinstance(t2, dict) and t2.get("k") == "Call" and ((resolved(t2) or "") == "<%s as core::clone::Clone>::clone" % ARRAY) and t2["args"]:
+                    t2 = peel(t2["args"][0])
+                pvars = {p_["pat"]["v"] for p_ in facts.params(b) if p_.get("pat") and p_["pat"].get("k") == "Binding" and (p_.get("ty") or "").replace("&", "").strip() == ARRAY}
+                if t2 is not t and isinstance(t2, dict) and t2.get("k") in ("VarRef", "UpvarRef") and t2["v"] in pvars:
+                    verdict = ("operand", "%s.dimensions (the result is a clone of `%s`)" % (t2["v"].split("#")[0], t2["v"].split("#")[0]))
+                else:
+                    c.unk(inst, F.loc(b, e), "a result of the element-wise combinator is built in a way whose dimensions are not read: %s" % show(t)[:80])
+                    continue
+            else:
+                verdict = is_broadcast_dims(dims_e)
             if verdict is True:
                 c.ok(inst, F.loc(b, e), "the result is built with the dimensions computed by the broadcast-shape function")
             elif isinstance(verdict, tuple):
@@ -351,7 +360,7 @@ def r40_broadcast(facts):
                 c.bad(inst, F.loc(b, e), "a result of the element-wise combinator is built with one operand's own dimensions (`%s`) instead of the pairwise-maximum "
                       "dimensions computed by the broadcast-shape function: wrong whenever the other operand has more dimensions or a larger one" % verdict[1])
             else:
-                c.unk(inst, F.loc(b, e), "where the result's dimensions (`%s`) come from is not recognised" % show(dims_e)[:60])
+                c.unk(inst, F.loc(b, e), "where the result's dimensions (`%s`) come from is not recognised" % (show(dims_e)[:60] if dims_e is not None else "?"))
     c.floor("functions that compute a broadcast shape (the element-wise combinator)", n_users, 1)
     # ------------------------------------------------------------------ (c) alignment consistency of the slice walk
     so = facts.body("corgi::array::Array::sliced_op")
